@@ -711,6 +711,12 @@ func (p *flowProto) decodeReal(st *state, addr, dg []byte, withJSON bool) decode
 	return out
 }
 
+// marshalOnly decodes once more against a throw-away copy of nothing — the cache is already updated, templates
+// re-announce identically — and runs JSONMarshal on the result, discarding the output
+func (p *flowProto) marshalOnly(st *state, addr, dg []byte) {
+	p.decodeReal(st, addr, dg, true)
+}
+
 // allocation bound of C02: linear in the datagram, times the largest template the cache can hold
 // (a field specifier needs 4 octets, so maxFields <= largest datagram seen in the session / 4)
 func allocBound(dgLen, maxPrev int) uint64 {
@@ -731,6 +737,8 @@ func (p *flowProto) runDecode(st *state, line, expect string) (string, string) {
 	runtime.ReadMemStats(&ms0)
 	out := p.decodeReal(st, addr, dg, false)
 	runtime.ReadMemStats(&ms1)
+	// C01: the worker also encodes every decoded message; a panic there is caught by the run loop
+	p.marshalOnly(st, addr, dg)
 	ln := out.line()
 	verdict := "ok"
 	switch {
